@@ -87,10 +87,11 @@ def metadata_of(cnf):
     return entity_descriptor(c).to_string().decode("utf-8")
 
 
-def make_sp(cnf, metadatas):
+def make_sp(cnf, metadatas, config_class=None):
+    """config_class: SPConfig (default), Config or IdPConfig - Saml2Client documents 'a Config instance'"""
     cnf = copy.deepcopy(cnf)
     cnf["metadata"] = {"inline": list(metadatas)}
-    return Saml2Client(config=SPConfig().load(cnf))
+    return Saml2Client(config=(config_class or SPConfig)().load(cnf))
 
 
 def make_idp(cnf, metadatas):
